@@ -99,20 +99,6 @@ pub fn verif_cfg_find_call<'a>(jmps: &'a Vec<Term<Jmp>>) -> (r: Option<&'a Term<
         },
 { unimplemented!() }
 
-// ---- Program::find_block (intermediate_representation/program.rs) ----------------------------------------------------------
-
-/// `Program::find_block` is `self.subs.iter().flat_map(|(_, sub)| sub.term.blocks.iter()).find(|block| block.tid == *tid)`:
-/// an iterator chain Verus cannot take.  Its body is dropped (@nobody in contracts/cfgbuild.vc: "returns
-/// cfg_find_block(subs, tid)", i.e. the result is a function of the program and the tid) and THIS axiom says what that
-/// function is, from the std documentation of `BTreeMap::iter` (every entry), `flat_map` (every block of every sub) and `find`
-/// ("the first element satisfying the predicate, None if there is none"): `Some` iff some block of the program has the tid,
-/// and then a block of the program with that tid.  WHICH of several blocks with the same tid is found is not specified
-/// (in a well-formed program they are equal).
-#[verifier::external_body]
-pub broadcast proof fn axiom_cfg_find_block(subs: Map<Tid, Term<Sub>>, tid: Tid)
-    ensures cfg_find_block_ok(subs, tid, #[trigger] cfg_find_block(subs, tid)),
-{ unimplemented!() }
-
 /// R9 target for `JMPS.iter().any(|jmp| matches!(jmp.term, Jmp::Return(_)))`.  std `Iterator::any`: "Tests if any element of
 /// the iterator matches a predicate"; `matches!(x, Jmp::Return(_))` is true iff x is the variant `Return`.
 #[verifier::external_body]
